@@ -301,6 +301,65 @@ def _check_value(res, v, quick):
                 return
 
 
+class _NoType:
+    """a value for which no D-Bus type can be inferred"""
+
+
+def _poison(v):
+    """puts a value without D-Bus type where inference will meet it, inside
+    the very container object v (or the first mutable container on its
+    inference path); returns an undo function, or None if v offers no such
+    place"""
+    if isinstance(v, list) and not isinstance(v, bytearray):
+        v.insert(0, _NoType())
+        return lambda: v.pop(0)
+    if isinstance(v, dict):
+        items = list(v.items())
+        v.clear()
+        v['\0poison'] = _NoType()
+        v.update(items)
+
+        def undo():
+            v.clear()
+            v.update(items)
+        return undo
+    if isinstance(v, tuple):
+        for x in v:
+            u = _poison(x)
+            if u is not None:
+                return u
+    return None
+
+
+def _check_after_failed_inference(res, v, quick):
+    """the same container object, first holding something that cannot be
+    sent (inference fails), then repaired in place and sent again: the
+    second attempt is judged like any first one"""
+    from txdbus import marshal as M
+    undo = _poison(v)
+    if undo is None:
+        return
+    try:
+        try:
+            M.marshal('v', [v])
+            failed = False
+        except Exception:
+            failed = True
+    finally:
+        undo()
+    if not failed:
+        return
+    res.count('transitions')
+    r2 = core.Result()
+    _check_value(r2, v, True)
+    for sig, d in r2.violations.items():
+        res.violation(sig + '/after-failed-inference',
+                      'after an attempt to send the same container object '
+                      'with an unsendable element in it had failed: '
+                      + d['what'], dict(d['replay'], poisoned=True),
+                      size=d['size'])
+
+
 def _vshape(v):
     """type-shape of a value, used in violation signatures"""
     if isinstance(v, list):
@@ -361,6 +420,7 @@ def _task_values(task):
     for i, v in enumerate(l1):
         if i % nparts == part:
             _check_value(res, v, quick)
+            _check_after_failed_inference(res, v, quick)
             res.count('nontrivial')
     # depth 2: containers over (a few atoms + representative depth-1 values)
     small = _small_atoms()
@@ -375,6 +435,8 @@ def _task_values(task):
     for i, v in enumerate(_containers(pool2, ['k', 'l', 1, 2])):
         if i % nparts == part:
             _check_value(res, v, quick)
+            if i % 7 == 0:
+                _check_after_failed_inference(res, v, quick)
             res.count('nontrivial')
             if i % 5000 == part:
                 res.sample({'value': repr(v)[:200], 'reference_type':
@@ -483,5 +545,9 @@ def replay(data):
         from txdbus import marshal as M
         env = {n: getattr(M, n) for n in WRAPPER_CODES}
         env['bytearray'] = bytearray
-        _check_value(res, eval(data['value'], env), False)
+        v = eval(data['value'], env)
+        if data.get('poisoned'):
+            _check_after_failed_inference(res, v, False)
+        else:
+            _check_value(res, v, False)
     return [(s, v['what']) for s, v in res.violations.items()]
